@@ -266,6 +266,95 @@ theorem run_dels {vis : FPath → Bool} {fs0 : FS} {r : FPath} {ld : List (FPath
     obtain ⟨fs', hrun, h1, h2⟩ := ih (processed ++ [(p, n)]) (fs.set (r ++ p) none) (by simp [hsplit]) hin' hout'
     exact ⟨fs', by simp only [runOps, hop, OpR.bind]; exact hrun, h1, h2⟩
 
+/-- **The delete phase without the safety hypothesis**: whatever the filters hide, the phase either succeeds (as in
+`run_dels`) or stops with an *error* (a folder that still holds a hidden entry cannot be removed) — it never follows a
+link (`escape`): every path it operates on is reached through real folders. -/
+theorem run_dels_total {vis : FPath → Bool} {fs0 : FS} {r : FPath} {ld : List (FPath × Node)} {src : FPath → Option SEntry}
+    {ls : List (FPath × SEntry)} (hw : DestWF vis fs0 r ld) (hs : SrcWF vis src ls)
+    (todo : List (FPath × Node)) :
+    ∀ (processed : List (FPath × Node)) (fs : FS),
+      planDel src ld = processed ++ todo →
+      (∀ p, fs.get (r ++ p) = if p ∈ processed.map (·.1) then none else fs0.get (r ++ p)) →
+      (∀ q, ¬ r <+: q → fs.get q = fs0.get q) →
+      (∃ fs', runOps (fun f x => delOp f r x) fs todo = .ok fs' ∧
+        (∀ p, fs'.get (r ++ p) = if p ∈ (planDel src ld).map (·.1) then none else fs0.get (r ++ p)) ∧
+        (∀ q, ¬ r <+: q → fs'.get q = fs0.get q)) ∨
+      runOps (fun f x => delOp f r x) fs todo = .err := by
+  induction todo with
+  | nil =>
+    intro processed fs hsplit hin hout
+    refine Or.inl ⟨fs, rfl, ?_, hout⟩
+    rw [hsplit, List.append_nil]; exact hin
+  | cons x todo' ih =>
+    intro processed fs hsplit hin hout
+    obtain ⟨p, n⟩ := x
+    have hpw := planDel_pairwise (src := src) hw.parentFirst
+    rw [hsplit, List.pairwise_append] at hpw
+    obtain ⟨-, hpw2, hcross⟩ := hpw
+    have hxmem : (p, n) ∈ planDel src ld := by rw [hsplit]; simp
+    obtain ⟨hxld, hxdel⟩ := mem_planDel.mp hxmem
+    obtain ⟨hpne, -, hpn⟩ := (hw.listed p n).mp hxld
+    -- nothing processed so far is a prefix of p
+    have hnp : ∀ q, q <+: p → q ∉ processed.map (·.1) := by
+      intro q hq hmem
+      obtain ⟨a, ha, rfl⟩ := List.mem_map.mp hmem
+      exact hcross a ha (p, n) (by simp) hq
+    have hcur : fs.get (r ++ p) = some n := by
+      rw [hin p]; simp [hnp p (List.prefix_refl p), hpn]
+    have hroot : fs.get r = some .folder := by
+      have := hin []
+      simp only [List.append_nil] at this
+      rw [this]
+      have : ([] : FPath) ∉ processed.map (·.1) := by
+        intro hmem
+        obtain ⟨a, ha, e⟩ := List.mem_map.mp hmem
+        have hamem : a ∈ planDel src ld := by rw [hsplit]; simp [ha]
+        have := ((hw.listed a.1 a.2).mp (mem_planDel.mp hamem).1).1
+        exact this e
+      simp [this, hw.rootFolder]
+    have hanc : fs.ancestors (r ++ p) = .ok := by
+      apply ancestors_below_root fs r p
+      · intro k hk
+        rw [hout _ (not_prefix_of_shorter r k hk)]; exact hw.rootAnc k hk
+      · exact hroot
+      · intro k hk0 hk
+        rw [hin (p.take k)]
+        simp only [hnp (p.take k) (List.take_prefix k p), ↓reduceIte]
+        exact dest_prefix_folder hw p (by rw [hpn]; simp) k hk
+    have hrp : r ++ p ≠ [] := by simp [hpne]
+    -- the call removes exactly r ++ p, or fails: it never escapes
+    have hop : delOp fs r (p, n) = .ok (fs.set (r ++ p) none) ∨ delOp fs r (p, n) = .err := by
+      unfold delOp
+      by_cases hfold : n = .folder
+      · subst hfold
+        simp only [FS.rmdir, withAnc, hanc, hcur]
+        cases hch : fs.hasChild (r ++ p) <;> simp [hrp]
+      · have : fs.unlink (r ++ p) = .ok (fs.set (r ++ p) none) := by
+          simp only [FS.unlink, withAnc, hanc, hcur]
+          cases n <;> simp_all
+        left
+        cases n <;> simp_all
+    -- continue with the rest
+    have hin' : ∀ q, (fs.set (r ++ p) none).get (r ++ q) =
+        if q ∈ (processed ++ [(p, n)]).map (·.1) then none else fs0.get (r ++ q) := by
+      intro q
+      rw [FS.get_set _ _ _ _ hrp]
+      by_cases hq : q = p
+      · subst hq; simp
+      · have : r ++ q ≠ r ++ p := fun e => hq ((List.append_cancel_left_eq r q p).mp e)
+        simp only [this, ↓reduceIte, hin q, List.map_append, List.map_cons, List.map_nil, List.mem_append,
+          List.mem_cons, List.not_mem_nil, or_false, hq]
+    have hout' : ∀ q, ¬ r <+: q → (fs.set (r ++ p) none).get q = fs0.get q := by
+      intro q hq
+      rw [FS.get_set _ _ _ _ hrp]
+      have : q ≠ r ++ p := by intro e; subst e; exact hq (List.prefix_append r p)
+      simp [this, hout q hq]
+    rcases hop with hop | hop
+    · rcases ih (processed ++ [(p, n)]) (fs.set (r ++ p) none) (by simp [hsplit]) hin' hout' with ⟨fs', hrun, h1, h2⟩ | herr
+      · exact Or.inl ⟨fs', by simp only [runOps, hop, OpR.bind]; exact hrun, h1, h2⟩
+      · exact Or.inr (by simp only [runOps, hop, OpR.bind]; exact herr)
+    · exact Or.inr (by simp only [runOps, hop, OpR.bind])
+
 end Rj
 
 namespace Rj
@@ -665,6 +754,17 @@ end Rj
 namespace Rj
 open FS
 
+/-- **No run follows a link, successful or not**: without any assumption about what the filters hide, the
+destination half of a sync ends `ok` or with an `err`or — never `escape`. -/
+theorem sync_never_escapes {vis : FPath → Bool} {fs0 : FS} {r : FPath} {ld : List (FPath × Node)} {src : FPath → Option SEntry}
+    {ls : List (FPath × SEntry)} (hw : DestWF vis fs0 r ld) (hs : SrcWF vis src ls) :
+    (∃ fs', syncDest fs0 r src ls ld = .ok fs') ∨ syncDest fs0 r src ls ld = .err := by
+  rcases run_dels_total hw hs (planDel src ld) [] fs0 (by simp) (by simp) (fun _ _ => rfl) with ⟨fs1, hd, hd1, hd2⟩ | herr
+  · obtain ⟨fs2, hc, -, -⟩ := run_cpys hw hs (planCpy (fun p => fs0.get (r ++ p)) ls) [] fs1 (by simp)
+      (by intro q; simp only [List.map_nil, List.not_mem_nil, ↓reduceIte, afterDels]; exact hd1 q) hd2
+    exact Or.inl ⟨fs2, by simp [syncDest, hd, hc, OpR.bind]⟩
+  · exact Or.inr (by simp [syncDest, herr, OpR.bind])
+
 /-- after the mirror state is reached, nothing is left to delete and nothing to copy: the plan of a
 second run against the destination as it now is (any complete listing `ld'` of it) is empty -/
 theorem second_plan_empty {fs0 fs' : FS} {r : FPath} {src : FPath → Option SEntry}
@@ -744,5 +844,94 @@ theorem rmdir_nonempty_fails (fs : FS) (P : FPath) (c : Comp) (n : Node) (h : fs
   split at hr
   · simp [hasChild_of_child fs P c n h] at hr
   · simp at hr
+
+end Rj
+
+namespace Rj
+open FS
+
+theorem delOp_ok_eq {fs fs' : FS} {r : FPath} {x : FPath × Node} (h : delOp fs r x = .ok fs') :
+    fs' = fs.set (r ++ x.1) none := by
+  unfold delOp at h
+  split at h
+  · obtain ⟨-, h⟩ := withAnc_ok h
+    split at h
+    · split at h
+      · cases h
+      · cases h; rfl
+    · cases h
+  · obtain ⟨-, h⟩ := withAnc_ok h
+    split at h
+    · cases h
+    · split at h
+      · cases h
+      · cases h; rfl
+    · cases h
+
+/-- an entry that no planned deletion names stays where it is, so the deletion of its folder cannot succeed -/
+theorem dels_child_blocks (r : FPath) (todo : List (FPath × Node)) (fs : FS) (p : FPath) (c : Comp) (n : Node)
+    (hchild : fs.get (r ++ (p ++ [c])) = some n) (hnot : ∀ x ∈ todo, x.1 ≠ p ++ [c])
+    (hmem : (p, Node.folder) ∈ todo) (fs' : FS) :
+    runOps (fun f x => delOp f r x) fs todo ≠ .ok fs' := by
+  induction todo generalizing fs with
+  | nil => simp at hmem
+  | cons x rest ih =>
+    intro hrun
+    simp only [runOps] at hrun
+    cases hop : delOp fs r x with
+    | err => simp [hop, OpR.bind] at hrun
+    | escape => simp [hop, OpR.bind] at hrun
+    | ok fs1 =>
+      simp only [hop, OpR.bind] at hrun
+      by_cases hx : x = (p, Node.folder)
+      · subst hx
+        simp only [delOp] at hop
+        have e : r ++ p ++ [c] = r ++ (p ++ [c]) := by simp
+        exact rmdir_nonempty_fails fs (r ++ p) c n (by rw [e]; exact hchild) fs1 hop
+      · have hfs1 := delOp_ok_eq hop
+        have hne : r ++ (p ++ [c]) ≠ r ++ x.1 := by
+          intro e
+          exact hnot x (by simp) ((List.append_cancel_left_eq r _ _).mp e).symm
+        have hne2 : r ++ x.1 ≠ [] := by
+          intro e
+          rw [e] at hne
+          have : delOp fs r x = .ok fs1 := hop
+          unfold delOp at this
+          rw [e] at this
+          split at this
+          · obtain ⟨-, h⟩ := withAnc_ok this
+            simp [FS.get] at h
+          · obtain ⟨-, h⟩ := withAnc_ok this
+            simp [FS.get] at h
+        have hchild1 : fs1.get (r ++ (p ++ [c])) = some n := by
+          rw [hfs1, FS.get_set _ _ _ _ hne2]
+          simp [hne, hchild]
+        have hmem' : (p, Node.folder) ∈ rest := by
+          rcases List.mem_cons.mp hmem with h | h
+          · exact absurd h.symm hx
+          · exact h
+        exact ih fs1 hchild1 (fun y hy => hnot y (List.mem_cons_of_mem _ hy)) hmem' hrun
+
+/-- **A hidden entry beneath a folder that must go makes the run fail** — with an error, not by following a link, and
+not silently: if the plan deletes the destination folder `p` while the destination holds, directly beneath it, an entry
+the filters hide (so that no deletion names it), the destination half of the sync ends `err`. -/
+theorem sync_hidden_child_fails {vis : FPath → Bool} {fs0 : FS} {r : FPath} {ld : List (FPath × Node)} {src : FPath → Option SEntry}
+    {ls : List (FPath × SEntry)} (hw : DestWF vis fs0 r ld) (hs : SrcWF vis src ls)
+    (p : FPath) (c : Comp) (n : Node) (hdel : (p, Node.folder) ∈ planDel src ld)
+    (hchild : fs0.get (r ++ (p ++ [c])) = some n) (hhidden : vis (p ++ [c]) = false) :
+    syncDest fs0 r src ls ld = .err := by
+  rcases sync_never_escapes hw hs with ⟨fs', hok⟩ | herr
+  · exfalso
+    unfold syncDest at hok
+    cases hd : runOps (fun f x => delOp f r x) fs0 (planDel src ld) with
+    | err => simp [hd, OpR.bind] at hok
+    | escape => simp [hd, OpR.bind] at hok
+    | ok fs1 =>
+      refine dels_child_blocks r (planDel src ld) fs0 p c n hchild ?_ hdel fs1 hd
+      intro x hx e
+      have := ((hw.listed x.1 x.2).mp (mem_planDel.mp hx).1).2.1
+      rw [e, hhidden] at this
+      cases this
+  · exact herr
 
 end Rj
